@@ -16,6 +16,7 @@ EXPLANATION = (
     "was drawn, hence inside [x_0, x_last], so conditional_sample columns stay inside the axes returned by "
     "get_conditionals. NOT claimed: that evaluate_conditional / get_conditionals cover the region above threshold and "
     "match the true conditional (data-dependent search over an arbitrary function, unimodality premise) - outside reach."
+    " Conditional unit: the object through which get_conditionals evaluates every grid point returns, for an arbitrary (uninterpreted) posterior, the posterior at the conditioning point with only the current variable replaced, across re-pointing from variable to variable and back, and never changes the caller's conditioning point."
 )
 BOUNDS = {"quick": "tables of 2..3 cells, 1..2 samples", "thorough": "4 cells, 2 samples"}
 ASSUMPTIONS = [
@@ -27,7 +28,7 @@ ASSUMPTIONS = [
 
 def _mod(h):
     import inference.approx.conditional as cd
-    h.patch(cd, zeros=ozeros)
+    h.patch(cd, zeros=ozeros, float=stubs.FloatLike, float64=stubs.FloatLike)
     h.covers(cd.piecewise_linear_sample, cd.trapezium_transform, cd.trapezium_full, cd.trapezium_near_zero)
     return cd
 
@@ -112,3 +113,34 @@ def trapezium_transform_solves_the_quadratic(h, branch):
         h.eq("d t^2 + (1-d) t == u", res, 0.0 * u)
     else:
         h.le("| d t^2 + (1-d) t - u | <= 1e-9", abs(res), 1e-9, tol=1e-7)
+
+
+@unit("C20", quick=[dict(d=2), dict(d=3)])
+def conditional_evaluates_the_posterior_through_the_conditioning_point(h, d):
+    """the object get_conditionals evaluates every grid point through: for an arbitrary posterior and conditioning point,
+    re-pointed from variable to variable the way get_conditionals does (and back), every call returns the posterior at the
+    conditioning point with only the current variable replaced; the caller's conditioning point is never changed"""
+    cd = _mod(h)
+    h.covers(cd.Conditional.__init__, cd.Conditional.__call__)
+    dt = object if h.sym else float
+    F = h.ufunc("logpost", d)
+    calls = []
+
+    def post(t):
+        t = np.asarray(t)
+        calls.append(np.array(t, dtype=dt))
+        return F(t)
+    theta = h.real("theta", d)
+    point = np.array(theta, dtype=dt)
+    c = cd.Conditional(posterior=post, theta=point, variable_index=0)
+    order = list(range(d)) + [0, d - 1]
+    for step, i in enumerate(order):
+        c.variable_index = i
+        for rep in range(2):
+            x = h.real(f"x{step}_{rep}")
+            want = np.array(theta, dtype=dt)
+            want[i] = x
+            val = c(x)
+            h.eq(f"step {step}.{rep} (variable {i}): value == posterior(conditioning point with x in place {i})", val, F(want))
+            h.eq(f"step {step}.{rep} (variable {i}): the posterior was evaluated at that point", calls[-1], want)
+            h.eq(f"step {step}.{rep}: caller's conditioning point unchanged", point, np.array(theta, dtype=dt))
